@@ -1281,6 +1281,10 @@ def _drop_dead (fn):
 class _FoldAttr(ast.NodeTransformer):
   def visit_Call (self, n):
     self.generic_visit(n)
+    # 'get_' + 'nw_src' (a constant argument substituted into a name built by concatenation) is the constant 'get_nw_src'
+    if isinstance(n.func, ast.Name) and n.func.id in ('getattr', 'setattr', 'hasattr') and len(n.args) >= 2 and isinstance(n.args[1], ast.BinOp) and isinstance(n.args[1].op, ast.Add) \
+       and isinstance(n.args[1].left, ast.Constant) and isinstance(n.args[1].right, ast.Constant) and isinstance(n.args[1].left.value, str) and isinstance(n.args[1].right.value, str):
+      n.args[1] = ast.copy_location(ast.Constant(value=n.args[1].left.value + n.args[1].right.value), n.args[1])
     if isinstance(n.func, ast.Name) and n.func.id == 'getattr' and len(n.args) == 2 and not n.keywords \
        and isinstance(n.args[1], ast.Constant) and isinstance(n.args[1].value, str) and n.args[1].value.isidentifier():
       return ast.copy_location(ast.Attribute(value=n.args[0], attr=n.args[1].value, ctx=ast.Load()), n)
